@@ -239,6 +239,10 @@ func upperBoundOK(v ssa.Value, b *ssa.BasicBlock, strict bool, depth int) bool {
 			}
 		}
 	}
+	// the value is itself a length (minus something): x[:len(x)], x[len(x)-1]
+	if off, isLen := lengthLike(v, 0); isLen && (off < 0 || (!strict && off == 0)) {
+		return true
+	}
 	switch x := v.(type) {
 	case *ssa.Call:
 		if bi, ok := x.Common().Value.(*ssa.Builtin); ok && bi.Name() == "min" && !strict {
@@ -408,6 +412,9 @@ func (c *Ctx) proveLE(low, high ssa.Value, b *ssa.BasicBlock, depth int) bool {
 		}
 	}
 	if clampPair(low, high) {
+		return true
+	}
+	if k, ok := constInt(low); ok && c.constLE(k, high, b) {
 		return true
 	}
 	pl, ok1 := stripConvert(low).(*ssa.Parameter)
@@ -607,6 +614,77 @@ func (c *Ctx) checkInterfaceEquality(r *Report, rule string) {
 func isModuleType(t types.Type) bool {
 	if n, ok := t.(*types.Named); ok && n.Obj().Pkg() != nil {
 		return isModulePkg(n.Obj().Pkg())
+	}
+	return false
+}
+
+// constLE: the constant k is <= v where block b executes: v is a length (a len() whose lower bound the
+// bounds prover knows there, or a length field / Len() compared with a constant by a dominating test).
+func (c *Ctx) constLE(k int64, v ssa.Value, b *ssa.BasicBlock) bool {
+	v = stripConvert(v)
+	off, isLen := lengthLike(v, 0)
+	if !isLen || off != 0 {
+		return false
+	}
+	if k <= 0 {
+		return true
+	}
+	if c.boundsP == nil {
+		c.boundsP = c.newBoundProver()
+	}
+	bp := c.boundsP
+	if call, ok := v.(*ssa.Call); ok {
+		if bi, isB := call.Common().Value.(*ssa.Builtin); isB && bi.Name() == "len" {
+			if k <= bp.lenLB(call.Common().Args[0], b, 0, map[ssa.Value]bool{}) {
+				return true
+			}
+		}
+	}
+	same := func(x ssa.Value) bool {
+		x = stripConvert(x)
+		if x == v || bp.sameLocFrom(x, v) {
+			return true
+		}
+		fx, ok1 := x.(*ssa.Field)
+		fv, ok2 := v.(*ssa.Field)
+		return ok1 && ok2 && fx.Field == fv.Field && fx.X == fv.X
+	}
+	for _, cc := range controlling(b) {
+		bin, ok := cc.Cond.(*ssa.BinOp)
+		if !ok {
+			continue
+		}
+		op := bin.Op
+		if _, known := negOp[op]; !known {
+			continue
+		}
+		var other ssa.Value
+		switch {
+		case same(bin.X):
+			other = bin.Y
+		case same(bin.Y):
+			other = bin.X
+			op = flipOp[op]
+		default:
+			continue
+		}
+		if cc.Edge == 1 {
+			op = negOp[op]
+		}
+		kk, isK := constInt(other)
+		if !isK {
+			continue
+		}
+		switch op { // v op kk
+		case token.GTR:
+			if kk+1 >= k {
+				return true
+			}
+		case token.GEQ, token.EQL:
+			if kk >= k {
+				return true
+			}
+		}
 	}
 	return false
 }
